@@ -429,8 +429,9 @@ func (e *SpecEnv) eval(x SExpr) SVal {
 		var binds []string
 		for _, qv := range n.Vars {
 			ty := vc.resolveType(qv.Type, e.pkg)
-			vc.n++
-			name := smtSym(fmt.Sprintf("q_%s!%d", qv.Name, vc.n))
+			// bound variables are named after the quantifier's source text, so that two
+			// expansions of the same clause / macro are syntactically identical formulas
+			name := smtSym(fmt.Sprintf("q_%s!%x", qv.Name, fnvHash(n.String())))
 			binds = append(binds, fmt.Sprintf("(%s %s)", name, ty.Sort))
 			c.names[qv.Name] = SVal{name, ty}
 			c.bound = append(append([]string{}, c.bound...), name)
